@@ -149,6 +149,10 @@ func TestIsLocalhost(t *testing.T) {
 		{"::ffff:127.0.0.1%lo", true},
 		{"fe80::1%eth0", false},
 
+		{"\u24dbocalhost", true},
+		{"\uff4c\uff4f\uff43\uff41\uff4c\uff48\uff4f\uff53\uff54", true},
+		{"\u24d4xample.com", false},
+
 		{"::10", false},
 		{"2001:0db8:85a3:0000:0000:8a2e:0370:7334", false},
 	}
